@@ -247,6 +247,13 @@ def make_offsets(case):
     return run
 
 
+def _is_dynamic(T, cfg):
+    try:
+        return H.layout(cfg).size_align(T)[0] is None
+    except Exception:  # noqa: BLE001
+        return False
+
+
 def _has_named_struct(T):
     named = []
     R.collect_named(T, named)
@@ -288,3 +295,7 @@ def cases(tier, seed):
             yield dict(c, cfg=dict(cfg, inner_align=not cfg["align"]), label=c["label"] + "~mixed")
             if cfg["align"]:
                 yield dict(c, cfg=cfg, based="any", label=c["label"] + "@any")
+        elif cfg["align"] and _is_dynamic(c["T"], cfg) and (tier != "quick" or len(seen) % 2 == 0 or "|" not in c["label"]):
+            # aligned structure with a dynamically sized member at an arbitrary position: the padding after that member depends
+            # on the absolute position, for the readers and for the writer alike
+            yield dict(c, cfg=cfg, based="any", label=c["label"] + "@any")
